@@ -143,8 +143,13 @@ def _canonical_hash(ctx) -> Tuple[List[str], str]:
     first = candidates[0]
     for c in candidates[1:]:
         if c[0] != first[0]:
-            raise AnalysisError(f"two canonical hash definitions disagree: {first} vs {c}")
+            raise HashDisagreement(first, c)
     return first
+
+
+class HashDisagreement(Exception):
+    def __init__(self, a, b):
+        self.a, self.b = a, b
 
 
 def _bit_attrs(ctx) -> Dict[str, int]:
@@ -266,8 +271,14 @@ def _lazy_slots(ctx) -> Dict[str, str]:
 def r6_1(ctx):
     ctx.rule("R6.1", "fields compared by Style.__eq__ == fields of the canonical hash tuple (equal => equal hash needs hash to ignore nothing __eq__ ignores and vice versa)")
     eqf = _eq_fields(ctx)
-    hf, where = _canonical_hash(ctx)
     m = _method(ctx, "__eq__")
+    try:
+        hf, where = _canonical_hash(ctx)
+    except HashDisagreement as d:
+        hm = _method(ctx, "__hash__")
+        ctx.violation(hm.fq, f"{d.a[0]} vs {d.b[0]}", hm.where,
+                      f"the hash is computed from the field tuple {d.a[0]} in {d.a[1]} but from {d.b[0]} in {d.b[1]}: equal styles built on different routes hash differently")
+        return
     ctx.check(
         set(eqf) == set(hf), m.fq, f"eq={sorted(eqf)} hash={sorted(hf)}", m.where,
         f"__eq__ fields {sorted(eqf)} == hash fields (defined in {where})",
@@ -284,7 +295,11 @@ def r6_1(ctx):
 
 def r6_2(ctx):
     ctx.rule("R6.2", "derived slots (_hash, _style_definition, _ansi) on every __new__ construction route are recomputed from the new object's own field values in canonical order, reset to None (lazy), or copied from an object all of whose dependency fields are copied unchanged")
-    hf, _ = _canonical_hash(ctx)
+    try:
+        hf, _ = _canonical_hash(ctx)
+    except HashDisagreement:
+        ctx.note("canonical hash definitions disagree (reported by R6.1); derived-slot check uses __eq__ fields")
+        hf = _eq_fields(ctx)
     lazy = _lazy_slots(ctx)
     deps: Dict[str, Set[str]] = {"_hash": set(hf)}
     if "_style_definition" in (_style(ctx).slots or []):
@@ -854,4 +869,22 @@ def _descendants(body):
     return out
 
 
-RULES = [r6_1, r6_2, r6_3, r6_4, r6_7, r6_5]
+def r6_6(ctx):
+    from .c18 import r18_7
+    r18_7(ctx)
+    ctx.rules_applied["R6.6"] = ctx.rules_applied.pop("R18.7") + " (needed for str()/parse round trip of color(n) and named colours)"
+    ctx.rule_counts["R6.6"] = ctx.rule_counts.pop("R18.7", 0)
+    for o in ctx.obligations:
+        if o["rule"] == "R18.7":
+            o["rule"] = "R6.6"
+    for v in ctx.violations:
+        if v.rule == "R18.7":
+            v.rule = "R6.6"
+
+
+def r6_8(ctx):
+    from .common import memo_rule
+    memo_rule(ctx, "R6.8", ["style"], 4, only={"Style.__str__", "Style.__hash__", "Style.parse", "Style.normalize", "Style.get_html_style"})
+
+
+RULES = [r6_1, r6_2, r6_3, r6_4, r6_7, r6_5, r6_6, r6_8]
